@@ -209,10 +209,12 @@ def bsplineDeriv {D} (stride : Fin D → Nat) (wts : Fin D → Nat → Nat → N
     fun idx => R idx / denom
   else R
 
-/-- src: image.py @1617-1630: the B-spline branch stores `derivs[code]` for the *unique sorted*
-    codes only and returns that dictionary as is (no re-keying by `which`). -/
+/-- src: image.py @1617-1631 (after fix 360bf64): the B-spline branch stores `derivs[code]` for the
+    unique sorted codes and then re-keys by the request like the other branches:
+    `derivs = {key: derivs[SpatialDerivativeKeys.sorted(key)] for key in which}`. -/
 def spatialDerivativesBSpline {D} {A : Type} (deriv : DKey D → A) (which : List (DKey D)) : List (DKey D × Option A) :=
-  (uniqueKeys which).map (fun k => (k, some (deriv k)))
+  let derivs : List (DKey D × A) := (uniqueKeys which).map (fun k => (k, deriv k))
+  (dedupFirst which).map (fun k => (k, assoc (sortKey k) derivs))
 
 end BSpline
 
